@@ -292,9 +292,13 @@ def enumerate (verbose : Bool) (tape : Bytes) : Outcome :=
   let (st, s) := readLoop false [] { l := { verbose := verbose } } (readAll tape)
   { status := st, out := s.out }
 
+/-- `args.into if args.into is not None else os.path.dirname(args.archive)` -/
+def targetDirOf (archive : Str) (into : Option Str) : Str :=
+  match into with | some d => d | none => dirname archive
+
 /-- `TapeImageContentExtractor.perform` -/
 def extract (verbose : Bool) (archive : Str) (into : Option Str) (tape : Bytes) : Outcome :=
-  let targetDir := match into with | some d => d | none => dirname archive
+  let targetDir := targetDirOf archive into
   let (st, s) := readLoop true targetDir { l := { verbose := verbose } } (readAll tape)
   { status := st, out := s.out, mkdirs := if targetDir.isEmpty then [] else [targetDir], writes := s.writes }
 
